@@ -10,6 +10,8 @@ theorems say the result is the same for every permutation of that list:
   MemDir map) enumerates its files in, provided names are distinct (they are keys);
 * `hash_perm`: hence the written `atlas.sum` is the same bytes (`writeSum`), and `Validate` answers
   the same;
+* `sortFiles_idempotent`, `hash_of_listing`: listing an already listed directory changes nothing, and the sum
+  written (and the verdict of `Validate`) for the sorted listing is that of the directory;
 * `byKeys_perm_invariant`: `byKeys(map)` (plan.go) – the key order the cycle detection iterates in –
   is the same for every enumeration order of the map.
 
@@ -267,5 +269,20 @@ theorem byKeys_perm_invariant (k1 k2 : List String) (hp : k1.Perm k2) (hnd : k1.
   · exact sortBy_sorted k1 hnd
   · exact sortBy_sorted k2 (hp.nodup_iff.mp hnd)
   · exact (sortBy_perm k1).trans (hp.trans (sortBy_perm k2).symm)
+
+theorem sortFiles_names_nodup (l : List DFile) (hnd : (l.map (·.name)).Nodup) : ((sortFiles l).map (·.name)).Nodup :=
+  ((sortFiles_perm l).map (·.name)).nodup_iff.mpr hnd
+
+/-- **sortFiles_idempotent**: listing an already listed directory changes nothing. -/
+theorem sortFiles_idempotent (l : List DFile) (hnd : (l.map (·.name)).Nodup) :
+    sortFiles (sortFiles l) = sortFiles l :=
+  sortFiles_perm_invariant (sortFiles l) l (sortFiles_perm l) (sortFiles_names_nodup l hnd)
+
+/-- **hash_of_listing**: the sum written for the sorted listing of a directory is the sum of the directory,
+and `Validate` answers the same for both — `migrate hash` on files handed over in listing order, or
+run twice, writes the same bytes. -/
+theorem hash_of_listing (H : Bytes → Bytes) (d : List DFile) (hnd : (d.map (·.name)).Nodup) :
+    writeSum H (sortFiles d) = writeSum H d ∧ ∀ sum, validate H (sortFiles d) sum = validate H d sum :=
+  hash_perm H (sortFiles d) d (sortFiles_perm d) (sortFiles_names_nodup d hnd)
 
 end Props.C20
